@@ -5,7 +5,7 @@ META = {
     "explanation": "Typestate of the launch loop and of the wait step over the typed-exception CFG (EX6/EX7: every path "
                    "from dequeue/wait ends skipped∧processed, launched∧registered, failed∧stored∧processed or aborted∧re-raised), "
                    "the success predicate (EX4/EX5), failure precedence in finish_execution (RT1), launch failures "
-                   "(RT7), wait-status decoding (SGc), the report and exit status (EX9, CLI1), --stop-early (EX10), and the planner's edge completeness (PL1–PL3, PL10, W1: a dependent can only be skipped if the edge from the failed task exists). Slot accounting cannot underflow after a launch failure (EX14, EX15).",
+                   "(RT7), wait-status decoding (SGc), the report and exit status (EX9, CLI1), --stop-early (EX10), and the planner's edge completeness (PL1–PL3, PL10, W1: a dependent can only be skipped if the edge from the failed task exists). Slot accounting cannot underflow after a launch failure (EX14, EX15). A failure is charged to the task whose pid was reaped (RT10, SG8, INF1).",
     "rules": ["EX4", "EX5", "EX6", "EX7", "RT1", "RT7", "SGc", "EX9", "CLI1", "EX10", "EX1", "PL1", "PL2", "PL3", "PL10", "W1(planner)", "EX14", "EX15", "RT10", "SG8", "INF1"],
     "assumptions": ["liveness half ('every other needed task still runs') is covered only through 'no op is dropped' (EX6/EX7) and the enqueue gate",
                     "signal delivery between statements (DESIGN §3.7)"],
